@@ -60,6 +60,26 @@ def cond_atoms(c, truth):
     return out
 
 
+def disjuncts(c, truth):
+    """The alternatives one of which holds when condition c evaluates to `truth`: [(expr, truth), ...]; a single entry when c is no
+    disjunction on that side."""
+    c0 = strip(c)
+    if not isinstance(c0, dict):
+        return [(c, truth)]
+    k = c0.get("k")
+    if k == "un" and c0["op"] == "!":
+        return disjuncts(c0["e"], not truth)
+    if k == "call" and c0.get("fn") == "__builtin_expect" and c0.get("a"):
+        return disjuncts(c0["a"][0], truth)
+    if k == "bin" and c0["op"] == "||" and truth:
+        return disjuncts(c0["l"], True) + disjuncts(c0["r"], True)
+    if k == "bin" and c0["op"] == "&&" and not truth:
+        return disjuncts(c0["l"], False) + disjuncts(c0["r"], False)
+    if k == "bin" and c0["op"] == ",":
+        return disjuncts(c0["r"], truth)
+    return [(c0, truth)]
+
+
 _EXPRS = {}   # text -> expression tree, for facts that name whole sub-formulas
 
 
@@ -269,6 +289,17 @@ class MustFacts:
             f = set(out_facts)
             if c is not None and len(blk.succs) == 2:
                 g = self.gen(c, si == 0)
+                # `!(a || b)` (De Morgan'd `!a && !b`) is not split into short-circuit blocks: on the edge where the disjunction holds
+                # nothing is known atom-wise, but whatever follows from *each* disjunct (after closure) holds
+                alts = disjuncts(c, si == 0)
+                if len(alts) >= 2:
+                    sets = []
+                    for e_, t_ in alts:
+                        s_ = set(self.gen(e_, t_))
+                        if self.closure:
+                            s_ = set(self.closure(s_))
+                        sets.append({x for x in s_ if x[0] != "or"})
+                    g = set(g) | set.intersection(*sets)
                 # the condition itself may have side effects that were already
                 # applied by _transfer (it is the last element); facts generated
                 # from it are about the state after evaluation only if the
